@@ -189,6 +189,266 @@ fn drop_count(sys: &Sys, op: Op, st: &mut Stats) {
     }
 }
 
+// ---- re-entrant wakers ---------------------------------------------------------------------
+//
+// A waker whose `wake` acts at once (it asks `available` again inline, or releases a guard its
+// task owns) and a task whose last handle is the counter's registration (so replacing the
+// registration drops the task, and with it a guard). Checked with invariants instead of exact
+// wake counts: `total` = live guards; every `available` answer = (live < capacity) at that
+// moment; and nobody who was answered "unavailable" and has not been woken since sleeps next
+// to a free slot.
+
+#[derive(Clone, Copy, Debug, PartialEq, Eq)]
+enum ReMode {
+    /// `wake` asks `available` again at once, with the same task's waker
+    RequeryInWake,
+    /// `wake` releases the guard the task owns
+    ReleaseInWake,
+    /// the guard the task owns is released when the last handle to the task is dropped
+    ReleaseOnLastDrop,
+}
+
+#[derive(Default)]
+struct ReTl {
+    counter: std::cell::RefCell<Option<Counter>>,
+    cap: std::cell::Cell<usize>,
+    live: std::cell::Cell<usize>,
+    owned: std::cell::RefCell<Option<CounterGuard>>,
+    mode: std::cell::Cell<Option<ReMode>>,
+    handles: std::cell::Cell<usize>,
+    /// who was last answered "unavailable" and has not been woken since: 0/1 counting wakers, 2 = the task
+    parked: std::cell::Cell<Option<usize>>,
+    complaint: std::cell::RefCell<Option<(&'static str, String)>>,
+    in_wake: std::cell::Cell<bool>,
+}
+
+thread_local! {
+    static RE: ReTl = ReTl::default();
+}
+
+struct ReW;
+
+fn re_waker() -> std::task::Waker {
+    RE.with(|r| r.handles.set(r.handles.get() + 1));
+    std::task::Waker::from(std::sync::Arc::new(ReW))
+}
+
+fn re_release_owned() {
+    let g = RE.with(|r| r.owned.borrow_mut().take());
+    if let Some(g) = g {
+        RE.with(|r| r.live.set(r.live.get() - 1));
+        drop(g);
+    }
+}
+
+fn re_complain(sig: &'static str, msg: String) {
+    RE.with(|r| {
+        let mut c = r.complaint.borrow_mut();
+        if c.is_none() {
+            *c = Some((sig, msg));
+        }
+    });
+}
+
+impl std::task::Wake for ReW {
+    fn wake(self: std::sync::Arc<Self>) {
+        let (mode, nested) = RE.with(|r| (r.mode.get(), r.in_wake.replace(true)));
+        RE.with(|r| {
+            if r.parked.get() == Some(2) {
+                r.parked.set(None);
+            }
+        });
+        if !nested {
+            match mode {
+                Some(ReMode::RequeryInWake) => {
+                    let c = RE.with(|r| r.counter.borrow().clone());
+                    if let Some(c) = c {
+                        let w = re_waker();
+                        let (live, cap) = RE.with(|r| (r.live.get(), r.cap.get()));
+                        let got = c.available(&Context::from_waker(&w));
+                        if got != (live < cap) {
+                            re_complain("available-value:asked-from-inside-a-wake-up", format!("available() asked from inside the wake-up answered {got} with {live} live guards, capacity {cap}"));
+                        }
+                        if !got {
+                            RE.with(|r| r.parked.set(Some(2)));
+                        }
+                    }
+                }
+                Some(ReMode::ReleaseInWake) => re_release_owned(),
+                _ => {}
+            }
+        }
+        RE.with(|r| r.in_wake.set(nested));
+    }
+}
+
+impl Drop for ReW {
+    fn drop(&mut self) {
+        let last = RE.with(|r| {
+            r.handles.set(r.handles.get().saturating_sub(1));
+            r.handles.get() == 0
+        });
+        if last && RE.with(|r| r.mode.get()) == Some(ReMode::ReleaseOnLastDrop) {
+            re_release_owned();
+        }
+    }
+}
+
+#[derive(Debug, Clone, Copy, PartialEq, Eq)]
+enum ReOp {
+    Get,
+    Drop(usize),
+    /// counting waker w asks
+    Avail(usize),
+    /// the task asks (and drops its own handle afterwards: the registration may be the last one)
+    AvailTask,
+    /// live guard j becomes the task's
+    Give(usize),
+}
+
+fn re_run(cap: usize, mode: ReMode, seq: &[ReOp]) -> (Option<(usize, &'static str, String)>, Vec<ReOp>) {
+    RE.with(|r| {
+        *r.counter.borrow_mut() = Some(Counter::new(cap));
+        r.cap.set(cap);
+        r.live.set(0);
+        *r.owned.borrow_mut() = None;
+        r.mode.set(Some(mode));
+        r.handles.set(0);
+        r.parked.set(None);
+        *r.complaint.borrow_mut() = None;
+        r.in_wake.set(false);
+    });
+    let counter = RE.with(|r| r.counter.borrow().clone().unwrap());
+    let wk = [CountWaker::new(0), CountWaker::new(1)];
+    let mut guards: Vec<CounterGuard> = vec![];
+    let mut bad = None;
+    for (i, op) in seq.iter().enumerate() {
+        match *op {
+            ReOp::Get => {
+                guards.push(counter.get());
+                RE.with(|r| r.live.set(r.live.get() + 1));
+            }
+            ReOp::Drop(j) => {
+                let g = guards.remove(j);
+                RE.with(|r| r.live.set(r.live.get() - 1));
+                drop(g);
+            }
+            ReOp::Give(j) => {
+                let g = guards.remove(j);
+                RE.with(|r| *r.owned.borrow_mut() = Some(g));
+            }
+            ReOp::Avail(w) => {
+                let (live, capv) = RE.with(|r| (r.live.get(), r.cap.get()));
+                let waker = wk[w].waker();
+                let got = counter.available(&Context::from_waker(&waker));
+                if got != (live < capv) {
+                    re_complain("available-value", format!("available() = {got} with {live} live guards, capacity {capv}"));
+                }
+                if !got {
+                    RE.with(|r| r.parked.set(Some(w)));
+                }
+            }
+            ReOp::AvailTask => {
+                let (live, capv) = RE.with(|r| (r.live.get(), r.cap.get()));
+                let waker = re_waker();
+                let got = counter.available(&Context::from_waker(&waker));
+                if got != (live < capv) {
+                    re_complain("available-value", format!("available() = {got} with {live} live guards, capacity {capv}"));
+                }
+                if !got {
+                    RE.with(|r| r.parked.set(Some(2)));
+                }
+                drop(waker);
+            }
+        }
+        // counting wakers that were woken are not parked any more
+        for w in 0..2 {
+            if wk[w].take() > 0 && RE.with(|r| r.parked.get()) == Some(w) {
+                RE.with(|r| r.parked.set(None));
+            }
+        }
+        let (live, capv, parked) = RE.with(|r| (r.live.get(), r.cap.get(), r.parked.get()));
+        if counter.total() != live {
+            re_complain("total", format!("total() = {} with {live} live guards", counter.total()));
+        }
+        if let Some(w) = parked {
+            if live < capv {
+                re_complain("missing-wake:re-entrant", format!("{} was answered 'unavailable', has not been woken since, and now {live} guard(s) are alive with capacity {capv}: it sleeps next to a free slot", if w == 2 { "the task".to_string() } else { format!("waker {w}") }));
+            }
+        }
+        if let Some((sig, msg)) = RE.with(|r| r.complaint.borrow_mut().take()) {
+            bad = Some((i, sig, msg));
+            break;
+        }
+    }
+    // enabled ops for the next step
+    let owned = RE.with(|r| r.owned.borrow().is_some());
+    let mut en = vec![];
+    if guards.len() + (owned as usize) < cap + 2 {
+        en.push(ReOp::Get);
+    }
+    for j in 0..guards.len() {
+        en.push(ReOp::Drop(j));
+    }
+    if !owned && mode != ReMode::RequeryInWake {
+        for j in 0..guards.len().min(1) {
+            en.push(ReOp::Give(j));
+        }
+    }
+    en.push(ReOp::Avail(0));
+    en.push(ReOp::Avail(1));
+    en.push(ReOp::AvailTask);
+    // take the world apart in a defined order
+    drop(guards);
+    RE.with(|r| {
+        r.mode.set(None);
+    });
+    let g = RE.with(|r| r.owned.borrow_mut().take());
+    drop(g);
+    RE.with(|r| *r.counter.borrow_mut() = None);
+    drop(counter);
+    (bad, en)
+}
+
+fn re_dfs(cap: usize, mode: ReMode, seq: &mut Vec<ReOp>, depth: usize, bag: &mut mcutil::VioBag, n: &mut u64) {
+    let (bad, en) = re_run(cap, mode, seq);
+    *n += 1;
+    if let Some((i, sig, msg)) = bad {
+        if i + 1 == seq.len() {
+            let sig = format!("counter:{sig}");
+            bag.add(&sig, || Violation {
+                signature: sig.clone(),
+                summary: format!("capacity {cap}, re-entrant waker {:?}: {msg} [ops {:?}]", mode, seq),
+                replay: json!({"kind": "counter-reentrant", "capacity": cap, "mode": format!("{:?}", mode), "ops": seq.iter().map(|o| format!("{:?}", o)).collect::<Vec<_>>()}),
+            });
+        }
+        return;
+    }
+    if seq.len() == depth {
+        return;
+    }
+    for op in en {
+        seq.push(op);
+        re_dfs(cap, mode, seq, depth, bag, n);
+        seq.pop();
+    }
+}
+
+fn reop_from(s: &str) -> ReOp {
+    let num = |s: &str| -> usize { s.chars().filter(|c| c.is_ascii_digit()).collect::<String>().parse().unwrap_or(0) };
+    if s == "Get" {
+        ReOp::Get
+    } else if s == "AvailTask" {
+        ReOp::AvailTask
+    } else if s.starts_with("Drop") {
+        ReOp::Drop(num(s))
+    } else if s.starts_with("Give") {
+        ReOp::Give(num(s))
+    } else {
+        ReOp::Avail(num(s))
+    }
+}
+
 // ---- LocalWaker --------------------------------------------------------------------------
 
 fn local_waker_seq(seq: &[usize]) -> Option<(&'static str, String)> {
@@ -239,7 +499,13 @@ pub fn run(args: &Args) -> i32 {
     let mut rep = Report::new(args, "model_checking");
     if let Some(p) = &args.replay {
         let r = mcutil::load_replay(p);
-        let bad = if r["kind"] == "counter" {
+        let bad = if r["kind"] == "counter-reentrant" {
+            let cap = r["capacity"].as_u64().unwrap() as usize;
+            let mode = match r["mode"].as_str().unwrap() { "RequeryInWake" => ReMode::RequeryInWake, "ReleaseInWake" => ReMode::ReleaseInWake, _ => ReMode::ReleaseOnLastDrop };
+            let ops: Vec<ReOp> = r["ops"].as_array().unwrap().iter().map(|o| reop_from(o.as_str().unwrap())).collect();
+            println!("capacity {cap} mode {:?} ops {:?}", mode, ops);
+            re_run(cap, mode, &ops).0.map(|(i, s, m)| (s, format!("op {i}: {m}")))
+        } else if r["kind"] == "counter" {
             let cap = r["capacity"].as_u64().unwrap() as usize;
             let ops: Vec<Op> = r["ops"].as_array().unwrap().iter().map(op_from).collect();
             println!("capacity {cap} ops {:?}", ops);
@@ -296,6 +562,27 @@ pub fn run(args: &Args) -> i32 {
             rep.sample(s);
         }
     }
+    // re-entrant wakers
+    let re_depth = args.opt_usize("redepth", args.tier.pick(6, 8));
+    let mut re_work = vec![];
+    for cap in 0..=2usize {
+        for mode in [ReMode::RequeryInWake, ReMode::ReleaseInWake, ReMode::ReleaseOnLastDrop] {
+            re_work.push((cap, mode));
+        }
+    }
+    let re_parts = mcutil::par_map(args.threads, &re_work, |_, (cap, mode)| {
+        let mut bag = mcutil::VioBag::default();
+        let mut n = 0u64;
+        re_dfs(*cap, *mode, &mut vec![], re_depth, &mut bag, &mut n);
+        (bag, n)
+    });
+    let mut re_seqs = 0u64;
+    for (bag, n) in re_parts {
+        re_seqs += n;
+        bag.drain_into(&mut rep);
+    }
+    rep.set("counter_sequences_with_a_reentrant_waker", re_seqs);
+    rep.set("counter_reentrant_depth", re_depth);
     // LocalWaker
     let lw_len = 8;
     let mut lw_seqs = 0u64;
